@@ -394,5 +394,5 @@ def run(prog, rep, tier):
     check_coding_labels(prog, rep)
     check_counts(prog, rep)
     check_forwarding(prog, rep)
-    c09.check_exactness(prog, rep, tier)
+    c09.check_exactness(prog, rep, tier, sink_filter=c09.NOT_SELECTION)
     check_rrblup(prog, rep)
